@@ -128,13 +128,60 @@ RULE = ("gc/gcdir profiles: random repository states built line by line (blobs o
         "the state before it (order-free Retained computation of the harness)")
 
 
+# Regression witnesses of the confirmed findings (notes/design-C05-C06.md): replayed on every run, before the seeded
+# generation.  On the repaired tree implementation and model agree on them and no monitor fires.
+WITNESSES = {
+    "F4a-manifest-and-layer": (["gc", "gcdir"], {"C05", "C06"}, [
+        "NEW 1 1 1 0 0", "B 1 0 oth", "B 4 0 raw", "B 3 0 img 1 5", "B 5 0 img 1 4",
+        "M 5 1 0 1 0", "M 3 1 0 2 0", "GC", "GC"]),
+    "F4b-child-under-other-media-type": (["gc", "gcdir"], {"C05", "C06"}, [
+        "NEW 1 1 1 0 0", "B 1 0 oth", "B 2 0 raw", "B 4 0 img 1 2", "B 5 0 idx 3:4",
+        "M 4 1 0 1 0", "M 5 2 0 2 0", "GC", "GC"]),
+    "F5-blobs-without-manifest": (["gcdir"], {"C05", "C06"}, [
+        "NEW 0 0 1 1 1", "B 3 1 oth", "GC", "M 3 1 0 1 0", "GC"]),
+    "F7-sha384-directory": (["gcdir"], {"C06"}, [
+        "NEW 0 0 1 0 1", "B 8 0 raw", "GC", "GC"]),
+    "F6-pass-stops-at-failing-repository": (["gcpassdir"], {"C06"}, [
+        "NEW 0 0 1 0 1", "R r1 removed 1", "R r2 healthy 1", "R r3 healthy 1", "R r4 corrupt 1", "R r5 healthy 1", "PASS"]),
+}
+
+
+def _witnesses(o, prop, profs, monitors):
+    from .inpkg import mon_parse
+    for fid, (pnames, props_, ops) in WITNESSES.items():
+        if prop not in props_:
+            continue
+        for pname in pnames:
+            prof = profs.get(pname)
+            if prof is None:
+                continue
+            im, mo, mn = prof.replay(ops, tag="witness")
+            o.cov["evaluations"] += len(ops)
+            o.notes.setdefault("witnesses_replayed", []).append("%s on %s" % (fid, pname))
+            if im is None:
+                o.violation("harness failed on witness %s" % fid, {"kind": "machinery", "detail": str(mn)}, no_input=True)
+                continue
+            diffs = core.first_diffs(prof.answered(ops), im, mo, prof.view, limit=1)
+            hits = [m for m in mon_parse(mn or []) if m[1] in monitors]
+            if diffs or hits:
+                what = "regression witness %s fails on the %s profile: %s" % (
+                    fid, pname, "; ".join("%s %s" % (m[1], m[2]) for m in hits[:2]) or
+                    "implementation %s | model %s" % (diffs[0][2], diffs[0][3]))
+                o.violation(what, {"kind": "witness", "profile": "%s-witness-%s" % (pname, fid), "finding": fid, "ops": ops,
+                                   "implementation": im, "model": mo, "monitors": mn,
+                                   "replay_cmd": "bin/check %s --replay <this file>" % o.prop})
+            prof.cleanup()
+
+
 def check_C05(o, tier):
     o.add_audit(core.audit("C05", tier == "thorough"))
     o.cov["rule"] = RULE
     quick = tier == "quick"
-    _run(o, gc_profile(o), "gc-random", {"VERIF_SEED": o.seed, "VERIF_N": 12000 if quick else 200000}, C05_MONITORS)
-    _run(o, gcdir_profile(o), "gcdir-random", {"VERIF_SEED": o.seed + 1, "VERIF_N": 2500 if quick else 40000}, C05_MONITORS)
-    _run(o, gc_profile(o), "gc-matrix", {"VERIF_SEED": o.seed + 2, "VERIF_N": 3200 if quick else 64000, "VERIF_MATRIX": 1}, C05_MONITORS)
+    profs = {"gc": gc_profile(o), "gcdir": gcdir_profile(o)}
+    _witnesses(o, "C05", profs, C05_MONITORS)
+    _run(o, profs["gc"], "gc-random", {"VERIF_SEED": o.seed, "VERIF_N": 12000 if quick else 200000}, C05_MONITORS)
+    _run(o, profs["gcdir"], "gcdir-random", {"VERIF_SEED": o.seed + 1, "VERIF_N": 2500 if quick else 40000}, C05_MONITORS)
+    _run(o, profs["gc"], "gc-matrix", {"VERIF_SEED": o.seed + 2, "VERIF_N": 3200 if quick else 64000, "VERIF_MATRIX": 1}, C05_MONITORS)
     o.cov["exhaustive"] = False
     for fn in EXTRA_C05:
         fn(o, tier)
@@ -144,11 +191,13 @@ def check_C06(o, tier):
     o.add_audit(core.audit("C06", tier == "thorough"))
     o.cov["rule"] = RULE
     quick = tier == "quick"
-    _run(o, gc_profile(o), "gc-random", {"VERIF_SEED": o.seed + 10, "VERIF_N": 8000 if quick else 150000}, C06_MONITORS)
-    _run(o, gcdir_profile(o), "gcdir-random", {"VERIF_SEED": o.seed + 11, "VERIF_N": 2500 if quick else 40000}, C06_MONITORS)
-    _run(o, gcdir_profile(o), "gcdir-matrix", {"VERIF_SEED": o.seed + 12, "VERIF_N": 1600 if quick else 32000, "VERIF_MATRIX": 1}, C06_MONITORS)
-    _run(o, gcpass_profile(o), "gcpass-random", {"VERIF_SEED": o.seed + 13, "VERIF_N": 400 if quick else 4000}, C06_MONITORS)
-    _run(o, gcpassdir_profile(o), "gcpassdir-random", {"VERIF_SEED": o.seed + 14, "VERIF_N": 250 if quick else 3000}, C06_MONITORS)
+    profs = {"gc": gc_profile(o), "gcdir": gcdir_profile(o), "gcpass": gcpass_profile(o), "gcpassdir": gcpassdir_profile(o)}
+    _witnesses(o, "C06", profs, C06_MONITORS)
+    _run(o, profs["gc"], "gc-random", {"VERIF_SEED": o.seed + 10, "VERIF_N": 8000 if quick else 150000}, C06_MONITORS)
+    _run(o, profs["gcdir"], "gcdir-random", {"VERIF_SEED": o.seed + 11, "VERIF_N": 2000 if quick else 40000}, C06_MONITORS)
+    _run(o, profs["gcdir"], "gcdir-matrix", {"VERIF_SEED": o.seed + 12, "VERIF_N": 1280 if quick else 32000, "VERIF_MATRIX": 1}, C06_MONITORS)
+    _run(o, profs["gcpass"], "gcpass-random", {"VERIF_SEED": o.seed + 13, "VERIF_N": 400 if quick else 4000}, C06_MONITORS)
+    _run(o, profs["gcpassdir"], "gcpassdir-random", {"VERIF_SEED": o.seed + 14, "VERIF_N": 250 if quick else 3000}, C06_MONITORS)
     o.cov["exhaustive"] = False
     for fn in EXTRA_C06:
         fn(o, tier)
